@@ -24,10 +24,11 @@ def batch(reqs, timeout=600, env_extra=None):
     if os.environ.get("VERIF_TRACE"):
         import sys
         print("[native %s] %s timeout=%s" % (time.strftime("%H:%M:%S"), [r.get("cmd") for r in reqs], timeout), file=sys.stderr, flush=True)
-    # watchdog: harnesses journal their partial result after every failure they record (native/h_gen.py Budget).  A product
-    # call that never returns (e.g. compiled code on a structure that grows from call to call) cannot be interrupted from
-    # inside; once failures are journalled and the helper has had WATCHDOG_S more seconds it is killed and the journal is
-    # the result.  A run without failures is never cut short, so the watchdog cannot hide a violation.
+    # watchdog: harnesses journal their partial result after every failure they record and touch a heartbeat file at every
+    # program (native/h_gen.py Budget).  A product call that never returns (e.g. compiled code on a structure that grows
+    # from call to call) cannot be interrupted from inside; once failures are journalled AND the heartbeat has been silent
+    # for WATCHDOG_S seconds the helper is killed and the journal is the result.  A helper that makes progress, or has
+    # found nothing, is never cut short (only the overall timeout applies), so the watchdog cannot hide a violation.
     journal = None
     if len(reqs) == 1:
         fd, journal = tempfile.mkstemp(prefix="verif-journal-", suffix=".json")
@@ -51,8 +52,16 @@ def batch(reqs, timeout=600, env_extra=None):
         except subprocess.TimeoutExpired:
             pass
         now = time.monotonic()
-        if journal and seen is None and os.path.exists(journal):
-            seen = now
+        if journal and os.path.exists(journal):
+            try:
+                beat = os.path.getmtime(journal + ".hb")
+                seen = max(beat, os.path.getmtime(journal))
+            except OSError:
+                seen = None
+            if seen is not None:
+                seen = now - (time.time() - seen)          # file times are wall-clock: convert to the monotonic scale
+        else:
+            seen = None
         if (seen is not None and now - seen > WATCHDOG_S) or now - t0 > timeout:
             proc.kill()
             proc.wait()
@@ -63,7 +72,7 @@ def batch(reqs, timeout=600, env_extra=None):
             if journal and os.path.exists(journal):
                 with open(journal) as f:
                     res = json.load(f)
-                res["watchdog"] = "helper killed %d s after its first journalled failure (%d s in all)" % (time.monotonic() - (seen or t0), time.monotonic() - t0)
+                res["watchdog"] = "helper killed: no progress for %d s (%d s in all); failures journalled so far are the result" % (time.monotonic() - (seen or t0), time.monotonic() - t0)
                 return [res]
             raise subprocess.TimeoutExpired("native helper %s" % [r.get("cmd") for r in reqs], timeout)
         so.seek(0)
@@ -73,7 +82,7 @@ def batch(reqs, timeout=600, env_extra=None):
         so.close()
         se.close()
         if journal:
-            for q in (journal, journal + ".tmp"):
+            for q in (journal, journal + ".tmp", journal + ".hb"):
                 if os.path.exists(q):
                     os.unlink(q)
     # the product prints diagnostics on stdout (e.g. the lexer's "Illegal character"); the JSON answer is the last line
@@ -138,7 +147,8 @@ def replay_choice(obl):
     """replay a counter-model of a deterministic_choice obligation on the real function"""
     m = obl.model or {}
     shape = obl.meta.get("shape", "")
-    n = int(m.get("n", 1))
+    sized = [len(m[k]) for k in ("population", "weights", "cum_weights") if isinstance(m.get(k), list)]
+    n = int(m["n"]) if "n" in m else (sized[0] if sized else 1)       # the model's population length (its weights may differ in number)
     n = max(1, min(n, 64))
     pop = ["g%d" % i for i in range(n)]
     ws = [float(frac(x)) for x in m["weights"]] if "weights" in m and "w=list" in shape else None
